@@ -24,6 +24,11 @@ Two ties between the theorems of `PyribsProofs/C09.lean` and the current source:
       (vi)  a fresh interpreter with 8 OpenMP / BLAS threads (harness/c09_kmeans_probe.py) builds the
             k-means archive repeatedly for the seeds 0, np.int64(0), 1, SeedSequence(0)
                                               -> centroids bitwise equal per seed, different between seeds;
+      (vii) the same pipeline, same seeds and evaluations, with calls that must be REFUSED interleaved (out of
+            protocol order: scheduler ask after ask / tell without ask, GradientArborescenceEmitter.ask / tell
+            before any gradients; malformed arguments: NaN / mis-shaped Jacobians, wrong-length or NaN objectives,
+            solutions of the wrong dimension, to the emitters and the archive); every one raises, the caller
+            carries on                        -> bit-identical to the run without them;
       (v)   k-means CVT archives (built with 8 OpenMP threads allowed, >= 1000 samples in the
             archives stratum) constructed 6 more times in the process -> centroids bitwise equal.
     Around every library call the states of `np.random` and `random` are compared
@@ -88,8 +93,11 @@ RULE = ("whole pipelines = archive kind (Grid, CVT x {kmeans, random, sobol, scr
         "BanditScheduler} x {int, 0 and np.int64(0) (at a fixed position for every seeded component), int >= 2**32, "
         "root SeedSequence, spawned child / grandchild "
         "SeedSequence(x).spawn(n)[i]} seeds for "
-        "every component (built anew per run), 2-8 iterations; each case is run 4 times (two global "
-        "states with different interleaved foreign draws, pickled at a random iteration, one seed changed), and "
+        "every component (built anew per run), 2-8 iterations; each case is run 5 times (two global "
+        "states with different interleaved foreign draws -- the second run also reads every read-only property, "
+        "stats and a CQD score for given target points between the calls --, with refused calls interleaved (out of "
+        "protocol order / malformed arguments, before the first ask and between ask and tell of every iteration), "
+        "pickled at a random iteration, one seed changed), and "
         "pipelines whose emitters are configured through es_kwargs (None / one dict each / ONE dict object shared "
         "by all emitters) a fifth time with separate equal dicts; a "
         "case is non-trivial when it has >= 2 iterations, the two runs' foreign draws differ, and every run "
@@ -492,6 +500,8 @@ class Obs:
         self.active = {}  # emitter index -> rows told
         self.first_batch = {}  # emitter index -> digest of the first non-empty batch it emitted through ask()
         self.kw_modified = None  # (when, [(entry, carries random material)]) for a caller-owned es_kwargs dict
+        self.refused = 0  # run 'r': calls that raised and were caught by the caller
+        self.unrefused = None  # run 'r': label of the first malformed / out-of-order call that did NOT raise
 
     def put(self, label, x):
         self.items.append((label, digest(x), excerpt(x)))
@@ -580,10 +590,113 @@ def look_around(sched):
                 pass
         except Exception:  # pylint: disable=broad-except
             pass
+        try:
+            # the CQD score for target points the caller supplies (nothing is drawn); dist_max defaults to the
+            # extent of the archive's bounds
+            a.cqd_score(1, np.array([[[0.25, -0.5], [-1.0, 1.0]]]), 2, -40.0, 4.0)
+        except Exception:  # pylint: disable=broad-except
+            pass
     for em in emitters_of(sched):
         peek(em, ["x0", "batch_size", "restarts", "itrs", "lower_bounds", "upper_bounds", "solution_dim", "archive",
                   "sigma", "sigma0", "iso_sigma", "line_sigma", "initial_solutions", "epsilon", "sigma_g"])
     peek(sched, ["emitters", "emitter_pool", "active", "archive", "result_archive"])
+
+
+def ribs_class(em):
+    """the library class of an emitter (the spy subclass logs what it is told; a refused call must not be logged)"""
+    return next(c for c in type(em).__mro__ if c.__module__.startswith("ribs."))
+
+
+def refused_calls(obs, sched, case, it, pos):
+    """Run 'r': calls that the pipeline must REFUSE, made by a caller who catches the error and carries on -- calls out
+    of protocol order (scheduler and GradientArborescenceEmitter) and calls with malformed arguments (emitters,
+    archive).  `pos`: 'pre' = before the iteration's first ask, 'mid' = between ask() and tell().  Which calls are
+    made is a function of (case['rej'], it, pos) alone.  Nothing is observed here: a refused call must leave every
+    later observable of the run as it is in the run that never made it."""
+    rr = random.Random(f"{case.get('rej', 0)}/{it}/{pos}")
+    dqd = any(e["kind"] in ("ga", "gop") for e in case["emitters"])
+    ems = emitters_of(sched)
+    archive = sched.archive
+
+    def attempt(label, fn):
+        with obs.guard(f"refused call {label} [{it}/{pos}]"):
+            try:
+                fn()
+            except Exception:  # pylint: disable=broad-except
+                obs.refused += 1
+                return
+        if obs.unrefused is None:
+            obs.unrefused = label
+
+    def tell_args(n, bad=None):
+        sol, obj, meas = np.full((n, D), 0.25), np.full(n, -0.25), np.full((n, 2), 0.25)
+        info = {"status": np.ones(n, dtype=np.int32), "value": np.full(n, 0.5)}
+        if bad == "len":
+            obj = np.full(n + 1, -0.25)
+        elif bad == "nan":
+            obj[rr.randrange(n)] = np.nan
+        elif bad == "dim":
+            sol = np.full((n, D + 1), 0.25)
+        return sol, obj, meas, info
+
+    def jac_args(n, bad):
+        jac = np.full((n, 3, D), 0.5)
+        if bad == "nan":
+            jac[rr.randrange(n), rr.randrange(3), rr.randrange(D)] = rr.choice([np.nan, np.inf])
+        elif bad == "shape":
+            jac = np.full((n, 3, D + 1), 0.5)
+        elif bad == "rows":
+            jac = np.full((n, 2, D), 0.5)
+        return jac
+
+    calls = []
+    # ---- out of protocol order: the scheduler
+    n_all = 3
+    if pos == "pre":
+        calls.append(("scheduler.tell() without ask()", lambda: sched.tell(np.zeros(n_all), np.zeros((n_all, 2)))))
+        if dqd:
+            calls.append(("scheduler.tell_dqd() without ask_dqd()",
+                          lambda: sched.tell_dqd(np.zeros(n_all), np.zeros((n_all, 2)), np.zeros((n_all, 3, D)))))
+    else:
+        calls.append(("scheduler.ask() straight after ask()", sched.ask))
+        if dqd:
+            calls.append(("scheduler.ask_dqd() straight after ask()", sched.ask_dqd))
+            calls.append(("scheduler.tell_dqd() after ask()",
+                          lambda: sched.tell_dqd(np.zeros(n_all), np.zeros((n_all, 2)), np.zeros((n_all, 3, D)))))
+    # ---- malformed arguments: the archive
+    calls.append(("archive.add(solutions of the wrong dimension)",
+                  lambda: archive.add(np.zeros((2, D + 1)), np.zeros(2), np.zeros((2, 2)))))
+    calls.append(("archive.add(NaN objective)",
+                  lambda: archive.add(np.zeros((2, D)), np.array([0.0, np.nan]), np.zeros((2, 2)))))
+    calls.append(("archive.add(objective of another length)",
+                  lambda: archive.add(np.zeros((2, D)), np.zeros(3), np.zeros((2, 2)))))
+    # ---- the emitters, called directly
+    early = []
+    for k, (em, spec) in enumerate(zip(ems, case["emitters"])):
+        cls = ribs_class(em)
+        kind = spec["kind"]
+        n = int(getattr(em, "batch_size", 3) or 3)
+        if kind in ("es", "ga"):
+            for bad in ("len", "nan", "dim"):
+                calls.append((f"emitter {k} ({kind}).tell(malformed: {bad})",
+                              lambda cls=cls, em=em, n=n, bad=bad: cls.tell(em, *tell_args(n, bad))))
+        if kind in ("ga", "gop"):
+            nd = 1 if kind == "ga" else n
+            for bad in ("nan", "nan", "shape", "rows"):
+                def f(cls=cls, em=em, nd=nd, bad=bad):
+                    sol, obj, meas, info = tell_args(nd)
+                    cls.tell_dqd(em, sol, obj, meas, jac_args(nd, bad), info)
+                calls.append((f"emitter {k} ({kind}).tell_dqd(malformed Jacobian: {bad})", f))
+        if kind == "ga" and it == 0 and pos == "pre":
+            # before any gradients were supplied: ask() and tell() are out of order
+            early.append((f"emitter {k} (ga).ask() before tell_dqd()", lambda cls=cls, em=em: cls.ask(em)))
+            early.append((f"emitter {k} (ga).tell() before tell_dqd()",
+                          lambda cls=cls, em=em, n=n: cls.tell(em, *tell_args(n))))
+    for label, fn in early:
+        attempt(label, fn)
+    if rr.random() < 0.6:
+        for label, fn in rr.sample(calls, min(len(calls), rr.randint(1, 3))):
+            attempt(label, fn)
 
 
 def run_pipeline(case, variant, stop_at=None, cfg=None):
@@ -591,7 +704,8 @@ def run_pipeline(case, variant, stop_at=None, cfg=None):
 
     variant: 'a' | 'b' (global state + foreign draws of that name), 'p' (as 'a', pickled at case['ckpt']),
     's' (as 'a', one seed changed), 'x' (as 'a', stop before iteration case['ckpt'] and return the pickle),
-    'd' (as 'a', but every emitter gets its own es_kwargs dict even when the case shares one object).
+    'd' (as 'a', but every emitter gets its own es_kwargs dict even when the case shares one object),
+    'r' (as 'a', with calls the pipeline must refuse interleaved -- see refused_calls).
     """
     from ribs.schedulers import BanditScheduler, Scheduler
     _init_spies()
@@ -668,6 +782,8 @@ def run_pipeline(case, variant, stop_at=None, cfg=None):
                 foreign(f[:3])
                 if variant == "b":
                     look_around(sched)
+                if variant == "r":
+                    refused_calls(obs, sched, case, it, "pre")
                 if dqd:
                     with obs.guard(f"ask_dqd[{it}]"):
                         sols = sched.ask_dqd()
@@ -683,6 +799,8 @@ def run_pipeline(case, variant, stop_at=None, cfg=None):
                 obj, meas = evaluate(sols, case.get("eval"))
                 if variant == "b" and it % 2 == 1:
                     look_around(sched)
+                if variant == "r":
+                    refused_calls(obs, sched, case, it, "mid")
                 if mid and it == ck:
                     with obs.guard("pickle.dumps"):
                         blob = pickle.dumps(sched)
@@ -881,6 +999,22 @@ def run_case(case, ctx=None):
                                      f"from the same pipeline built with separate equal dicts: {d} :: {what}",
                            detail=d.values)
         cnt("iv:shared-es_kwargs-identical")
+    # (vii) the same run with refused calls interleaved
+    orj, _, _ = run_pipeline(case, "r", cfg=cfg)
+    if orj.disturbed is not None:
+        return Failure("oracle", f"global random state disturbed by {orj.disturbed} :: {what}")
+    if orj.unrefused is not None:
+        cnt("vii:skipped(a malformed or out-of-order call was accepted)")  # C11's / C19's business, not read here
+    else:
+        d = first_diff(oa, orj)
+        if d is not None:
+            return Failure("oracle", f"same seeds, same evaluations, but {orj.refused} calls that were REFUSED (out of "
+                                     f"protocol order / malformed arguments; each raised and the caller carried on) "
+                                     f"interleaved -> different results than the run without them: {d} :: {what}",
+                           detail=d.values)
+        cnt("vii:refused-calls-leave-run-identical")
+        if ctx is not None:
+            ctx.count("vii:refused-calls", orj.refused)
     # (ii) pickle continuation
     if not has_pycma(case):
         op, _, _ = run_pipeline(case, "p", cfg=cfg)
@@ -1023,6 +1157,7 @@ def base_case(rng, n_iter):
         "ckpt": rng.randrange(n_iter),
         "ckpt_phase": rng.choice([0, 0, 1]),
         "change": rng.randrange(4),
+        "rej": rng.randrange(1 << 20),
         "ops": gen_foreign(rng, n_iter),
         "result_archive": False,
         "sched": "plain",
@@ -1573,7 +1708,8 @@ def run(ctx):
     ctx.failures[:] = kept
     ctx.extra.setdefault("phase_seconds", {})["double_runs"] = round(time.time() - t_run, 2)
     ctx.extra["double_runs"] = {
-        "pipelines_per_case": "4 (a, b, pickled, changed seed) + fresh-process resumption for a few cases",
+        "pipelines_per_case": "5 (a, b, refused calls interleaved, pickled, changed seed) + fresh-process "
+                              "resumption for a few cases",
         "observables": "CVT centroids, every ask()/ask_dqd() batch, add feedback per emitter and tell, "
                        "archive.data() (all fields, sorted by index), archive.stats, a final sample_elites draw, "
                        "result archive, np.random / random state around every library call",
